@@ -33,7 +33,13 @@ RULE = ("random fonts (line / quadratic contours incl. contours starting off-cur
         "point set left fits EVERY master); every gvar tuple must address exactly the points left + 4; nothing impliable in ALL masters (the code's own two-armed test on the masters' unrounded "
         "coordinates, among the points left) may be left; and the variable font is instantiated (fontTools.varLib.instancer) at every non-default master's location: the "
         "instance must be that master's own points - those the default entry's flags pick - rounded, within 1 unit (compared exactly with the model `vfMaster` when "
-        "optimizeGvar=False, half of the designspaces).  Single fonts are also judged on the source coordinates: none of the source points still there passes the test.")
+        "optimizeGvar=False, half of the designspaces).  Single fonts are also judged on the source coordinates: none of the source points still there passes the test.  "
+        "State (n/4 more fonts, tag `state`): what a default (inplace=False) compile must not depend on - 55% carry cu2qu's curve-type lib key "
+        "(com.github.googlei18n.cu2qu.curve_type in font.lib or in the default layer's lib; quadratic 3/5, cubic, an unknown value), the others (and 40% of those) a "
+        "HISTORY of 1-3 earlier not-in-place compiles on the SAME font object before the observed compileTTF: of an empty layer (2/7), of a sparse layer, of the default layer with the "
+        "same / with other options (reversal flipped, flatten), compileOTF, a bare TTFPreProcessor run; line/quadratic fonts with component graphs and mixed glyphs (5/6) or cubic "
+        "fonts (1/6); the source handed to the predicate is the authored data, never re-read from the font object; non-trivial = a key or a history is present and the options call "
+        "for a reversal or a re-anchoring (or a cubic conversion).")
 ASSUMED = ["cu2qu (curve_to_quadratic) is external: its error bound is measured on the pre-processor's un-rounded output, not proved",
            "glyf binary encoding/decoding and maxp.recalc are fontTools'",
            "dropImpliedOnCurves: fontTools' dropImpliedOnCurvePoints / _is_mid_point are modelled from their source (fontTools 4.55) and tied through the "
@@ -41,7 +47,9 @@ ASSUMED = ["cu2qu (curve_to_quadratic) is external: its error bound is measured 
            "coincide); only quadratic glyphs (flags 0/1) - glyf-v1 cubic off-curve flags (allQuadratic=False) are not modelled",
            "dropImpliedOnCurves in the variable path: masters are taken as the modelled pre-processing of each source (convertCubics=False; reversal "
            "optional); cubic masters (fonts_to_quadratic) with the option are not tied; of the variable font the default master's glyf entry, the gvar tuples' point counts and the "
-           "instances at the masters' own locations are observed (gvar deltas in between the masters are varLib's interpolation, C10/C13)"]
+           "instances at the masters' own locations are observed (gvar deltas in between the masters are varLib's interpolation, C10/C13)",
+           "state stream: the model is of inplace=False compiles - it has no lib-key or object-history input at all (that IS the claim: neither may matter); the in-place "
+           "mode (inplace=True, where CubicToQuadraticFilter honours and writes the curve-type key and the source is modified on purpose) is not generated and not modelled"]
 
 def _gen_base(rng, n, mode):
     for i in range(n):
@@ -200,11 +208,45 @@ def _gen_joint(rng, n, mode):
                "bad": bad, "direct": i % 3 == 2 and bad is None, "optimizeGvar": rng.random() < 0.5}   # incompatible masters are rejected up-front by fonts_to_quadratic
 
 
+CURVE_TYPE_KEY = "com.github.googlei18n.cu2qu.curve_type"      # fontTools.cu2qu.ufo.CURVE_TYPE_LIB_KEY
+HIST_OPS = ("empty", "empty", "ttf", "ttf-other", "otf", "sparse", "pre")
+
+
+def _gen_hist(rng, n, mode):
+    """state the compile must not depend on: (a) lib keys that only an in-place run may read/write (cu2qu's curve-type key, in
+    font.lib or in the default layer's lib, values quadratic / cubic / junk), (b) a HISTORY of earlier not-in-place compiles on
+    the SAME font object (an empty layer, a sparse layer, the default layer with the same or other options, compileOTF, a bare
+    TTFPreProcessor run) before the observed compileTTF.  The source handed to the predicate is the authored data."""
+    mats = ["id", "id", "mirrorx", "mirrory", "rot90", "rot180", "swap", "half", "shear"]
+    for i in range(n):
+        cubic = (i % 6 == 5)
+        if cubic:
+            fd = outline_font(rng, nglyphs=rng.choice([1, 2]), kinds=("line", "curve", "curve", "qcurve"), grid=8, half=0.2, mats=["id"],
+                              maxdepth=1, pcomp=0.0, mixed=0.0, offstart=False, lim=500)
+        else:
+            fd = outline_font(rng, nglyphs=rng.choice([1, 2, 3, 5]), kinds=("line", "line", "qcurve"), grid=8, half=0.3, mats=mats,
+                              maxdepth=3, pcomp=0.5, mixed=0.35, offstart=True, open_=0.0, offgrid=8)
+        r = rng.random()
+        libkey = None
+        if r < (0.7 if mode == "search" else 0.55):
+            libkey = [rng.choice(["font", "font", "layer"]), rng.choice(["quadratic", "quadratic", "quadratic", "cubic", "mixed"])]
+        hist = []
+        if libkey is None or rng.random() < 0.4:
+            hist = [rng.choice(HIST_OPS) for _ in range(rng.choice([1, 1, 2, 3]))]
+        # layers the history may compile: one without glyphs, one sparse (a contour-only copy of some source glyphs)
+        simple = [g for g in fd["glyphs"] if g["contours"] and not g["components"]]
+        fd["layers"] = {"sketches": [], "bg": [dict(g, unicodes=[]) for g in simple[:2]]}
+        yield {"fd": fd, "skip": [], "cubic": cubic, "err": None, "convertCubics": True if cubic else rng.random() < 0.8,
+               "reverseDirection": rng.random() < 0.8, "flatten": False, "lib": rng.choice(["ufoLib2", "defcon"]),
+               "allQuadratic": True, "libkey": libkey, "hist": hist}
+
+
 def gen(rng, n, mode):
     yield from _gen_base(rng, n, mode)
     # the same generator state as before for the streams above; the new streams come after them
     yield from _gen_drop(rng, max(8, n // 3), mode)
     yield from _gen_joint(rng, max(4, n // 12), mode)
+    yield from _gen_hist(rng, max(12, n // 4), mode)
 
 
 def _bez3(p0, p1, p2, p3, t):
@@ -387,6 +429,28 @@ def run(case):
     if case.get("drop"):
         kw["dropImpliedOnCurves"] = True
     obs = {"err": None}
+    hist_errs = []
+    if case.get("libkey"):
+        where, val = case["libkey"]
+        (font.lib if where == "font" else font.layers.defaultLayer.lib)[CURVE_TYPE_KEY] = val
+    for op in case.get("hist") or []:
+        # earlier compiles on the same object, all with the default inplace=False; what they return is not looked at
+        try:
+            if op == "empty":
+                ufo2ft.compileTTF(font, layerName="sketches", **kw)
+            elif op == "sparse":
+                ufo2ft.compileTTF(font, layerName="bg", **kw)
+            elif op == "ttf":
+                ufo2ft.compileTTF(font, **kw)
+            elif op == "ttf-other":
+                ufo2ft.compileTTF(font, **dict(kw, reverseDirection=not case["reverseDirection"], flattenComponents=True))
+            elif op == "otf":
+                ufo2ft.compileOTF(font, useProductionNames=False, optimizeCFF=0)
+            elif op == "pre":
+                from ufo2ft.preProcessor import TTFPreProcessor as _P
+                _P(font, convertCubics=case["convertCubics"], reverseDirection=case["reverseDirection"]).process()
+        except Exception as e:
+            hist_errs.append(op + ":" + type(e).__name__)
     try:
         tt = ufo2ft.compileTTF(font, **kw)
         buf = io.BytesIO(); tt.save(buf); buf.seek(0)
@@ -450,8 +514,15 @@ def run(case):
     tags = ["cubic" if case["cubic"] else "linequad", "cc:%s" % case["convertCubics"], "rev:%s" % case["reverseDirection"],
             "flat:%s" % case["flatten"], case["lib"], "err:" + str(obs.get("err"))] + (["mixed"] if mixed else []) + (["skip"] if case.get("skip") else []) + \
         (["det<0"] if neg else []) + (["offstart"] if off else []) + ((["drop", "dropped" if dropped else "nodrop"]) if case.get("drop") else [])
+    ishist = "hist" in case
+    if ishist:
+        tags += ["state", "libkey:%s" % ("-".join(case["libkey"]) if case.get("libkey") else None)] + \
+            ["hist:" + op for op in sorted(set(case.get("hist") or []))] + ["histerr:" + e for e in hist_errs]
+        # the state can only matter where the TrueType convention changes something: a reversal or a re-anchoring is due
+        moved = case["reverseDirection"] or (case["convertCubics"] and off) or case["cubic"]
     return [{"op": "font", "in": inp, "obs": obs, "tags": tags,
-             "nontrivial": dropped if case.get("drop") else ((mixed and (neg or off)) or case["cubic"])}]
+             "nontrivial": (moved and bool(case.get("libkey") or case.get("hist"))) if ishist else
+                           dropped if case.get("drop") else ((mixed and (neg or off)) or case["cubic"])}]
 
 
 def agree(req, rep):
@@ -511,6 +582,13 @@ def shrink(case):
                     yield c
         return
     gl = case["fd"]["glyphs"]
+    # state stream: a shorter history, no lib key
+    for k in range(len(case.get("hist") or [])):
+        c = dict(case); c["hist"] = case["hist"][:k] + case["hist"][k + 1:]
+        yield c
+    if case.get("libkey") and case.get("hist"):
+        c = dict(case); c["libkey"] = None
+        yield c
     for s_ in case.get("skip") or []:
         c = dict(case); c["skip"] = [x for x in case["skip"] if x != s_]
         if c["skip"]:
@@ -557,4 +635,9 @@ LEVEL_NOTE = ("Trusted: Lean kernel + standard axioms; correspondence harness; g
               "a measured hypothesis (partial for the cubic clause); dropImpliedOnCurves=True is modelled for quadratic glyphs (fontTools' "
               "dropImpliedOnCurvePoints read from source, `math.isclose` as exact equality) and tied through compileTTF and compileVariableTTF "
               "(default master's glyf entry + gvar point counts; convertCubics=False in the variable stream); default master's glyf entry, gvar point counts, instances at the master locations); mutants that move the rounding before the "
-              "test (single or joint) or skip the joint drop keep the rendered outline but leave impliable points: they fail the maximality clauses with a failing input.")
+              "test (single or joint) or skip the joint drop keep the rendered outline but leave impliable points: they fail the maximality clauses with a failing input.  "
+              "State stream (lib keys, compile history on one object): observation against the unchanged model and predicate - the Lean driver evaluates holdsSimple / holdsComposite / maxp on the "
+              "observed font against the AUTHORED source and the model output (independent of key and history) must agree; no new theorem: that a not-in-place compile reads no "
+              "curve-type key and leaves the source object untouched (BaseFilter.__call__'s `glyphSet is None` test, `copy=not inplace`, `rememberCurveType and self.inplace`) is "
+              "tested, not proved.  Seeded changes that make an empty glyph set fall back to the font's own layer (filters then run in place; the next compile reverses twice) "
+              "or that honour the key when not in place (reversal skipped) fail with a failing input on every seed tried.")
